@@ -45,17 +45,18 @@ FAMILIES = {
         "extreme": ("ParamsExtreme", "MixMovesQ", 3, "BothTr", "PageOnly", "First1", ["GONewV", "BuildOther"]),
     },
     "thorough": {
-        "lines":   ("ParamsLineT", "LineMovesQ", 3, "BothTr", "PageOnly", "First1", ["GONewV"]),
-        "lines4":  ("ParamsLineM", "LineMovesQ", 4, "BothTr", "PageOnly", "First1", ["GONewV"]),
-        "linesmix": ("ParamsLineM", "LineMovesT", 3, "BothTr", "PageOnly", "First2", ["GONewV"]),
+        "lines":   ("ParamsLineQ", "LineMovesQ", 3, "BothTr", "PageOnly", "First1", []),
+        "linesT":  ("ParamsLineT", "LineMovesQ", 3, "BothTr", "PageOnly", "First1", []),
+        "lines4":  ("ParamsLine4", "LineMoves4", 4, "BothTr", "PageOnly", "First1", []),
+        "linesmix": ("ParamsLineQ", "LineMovesT", 3, "BothTr", "PageOnly", "First2", []),
         "stack":   ("ParamsStack", "StackMovesQ", 4, "NoTr", "PageOnly", "First1", []),
         "stack3":  ("ParamsStack", "StackMovesT", 3, "NoTr", "PageOnly", "First2", []),
-        "stackv":  ("ParamsStackV", "StackMovesQ", 3, "BothTr", "PageOnly", "First1", ["GONewV"]),
-        "columns": ("ParamsCols", "ColMovesQ", 5, "NoTr", "PageOnly", "First1", ["GTBRepush"]),
-        "columns4": ("ParamsCols", "ColMovesT", 4, "NoTr", "PageOnly", "First2", ["GTBRepush"]),
-        "columnsv": ("ParamsColsV", "ColMovesQ", 4, "BothTr", "PageOnly", "First1", ["GTBRepush"]),
-        "figures": ("ParamsFig", "FigMoves", 4, "NoTr", "PageAndFigure", "First1", ["SkipFigure", "BuildOther"]),
-        "extreme": ("ParamsExtreme", "MixMovesT", 3, "BothTr", "PageOnly", "First1", ["GONewV", "BuildOther"]),
+        "stackv":  ("ParamsStackV", "StackMovesQ", 3, "BothTr", "PageOnly", "First1", []),
+        "columns": ("ParamsCols", "ColMovesQ", 5, "NoTr", "PageOnly", "First1", []),
+        "columns4": ("ParamsCols3", "ColMovesT", 4, "NoTr", "PageOnly", "First2", []),
+        "columnsv": ("ParamsColsV", "ColMovesQ", 4, "BothTr", "PageOnly", "First1", []),
+        "figures": ("ParamsFig", "FigMoves", 4, "NoTr", "PageAndFigure", "First1", []),
+        "extreme": ("ParamsExtreme", "MixMovesT", 3, "BothTr", "PageOnly", "First1", []),
     },
 }
 SIM = {"quick": (400, 9), "thorough": (6000, 9)}     # -simulate: behaviours, glyphs
@@ -164,8 +165,8 @@ def replay_chunk(chunk):
            "colpage": 0, "scalecmp": 0, "samples": [], "pred_evals": 0}
     for rs in chunk:
         rec = rs[0]
-        outs = {R.model_out(r) for r in rs}
-        outs_c = {R.model_out(r, True) for r in rs}
+        outs = {(R.model_out(r), R.model_groups(r)) for r in rs}
+        outs_c = {(R.model_out(r, True), R.model_groups(r)) for r in rs}
         tie = len(outs) > 1
         res["tie"] += tie
         res["n"] += 1
@@ -186,7 +187,7 @@ def replay_chunk(chunk):
                                         "analyze raised %s: %s" % (type(e).__name__, str(e)[:200]),
                                         dict(short(rec), scale=str(scale))))
                     continue
-                got = R.project(cont, chars, items, scale)
+                got = (R.project(cont, chars, items, scale), R.proj_groups(cont, scale))
                 res["runs"] += 1
                 if first is None:
                     first = got
@@ -265,9 +266,9 @@ def replay_pdf_chunk(job):
                 raise MachineryError("extract_text output has %d form feeds for %d pages" % (len(texts) - 1, len(groups)))
         for i, (pg, rs) in enumerate(zip(pages, groups)):
             rec = rs[0]
-            outs = {R.model_out(r) for r in rs}
-            outs_c = {R.model_out(r, True) for r in rs}
-            got = R.project_pdf_page(pg, rec, scale)
+            outs = {(R.model_out(r), R.model_groups(r)) for r in rs}
+            outs_c = {(R.model_out(r, True), R.model_groups(r)) for r in rs}
+            got = (R.project_pdf_page(pg, rec, scale), R.proj_groups(pg, scale))
             res["pages"] += 1
             per_scale.setdefault(i, {})[scale] = got
             if got in outs or got in outs_c:
@@ -278,13 +279,13 @@ def replay_pdf_chunk(job):
                                             model=repr(sorted(outs)[0])[:800]))
             if texts is not None:
                 res["text"] += 1
-                want = {R.expected_text(o, rec) for o in outs | outs_c}
+                want = {R.expected_text(o[0], rec) for o in outs | outs_c}
                 if texts[i] + "\f" not in want:
                     res["viol"].append(("text-concat", "extract_text of the page is not the concatenation of its boxes' text",
                                         dict(short(rec), scale=str(scale), observed=texts[i][:300], expected=sorted(want)[0][:300])))
     if mode == "C09" and len(scales) > 1:
         for i, d in per_scale.items():
-            if len({R.model_out(r) for r in groups[i]}) > 1:
+            if len({(R.model_out(r), R.model_groups(r)) for r in groups[i]}) > 1:
                 continue
             vals = list(d.values())
             res["scalecmp"] += len(vals) - 1
